@@ -154,9 +154,18 @@ def setup_profile():
     curid = ",".join([str(steps.index(cc) + 1) for cc in cur])
     for ii, st in enumerate(steps):
         print("  {}: {}".format(ii+1, st))
-    stp = input("(currently '{}'): ".format(curid))
-    if stp:
-        pf["preprocessing"] = [steps[int(ii) - 1] for ii in stp.split(",")]
+    while True:
+        stp = input("(currently '{}'): ".format(curid))
+        if stp:
+            new = [steps[int(ii) - 1] for ii in stp.split(",")]
+            try:
+                # required steps must be present and come first
+                preproc.check_order(new)
+            except ValueError as exc:
+                print("Invalid preprocessing: {}".format(exc))
+                continue
+            pf["preprocessing"] = new
+        break
 
     print("\nSelect model number:")
     models = sorted(model.models_available.keys())
